@@ -420,6 +420,9 @@ func TestRapidThroughLogger(t *testing.T) {
 		c := &LoggerCase{Spec: genSpec(rt, 2, "spec"), LoggerLevel: rapid.SampledFrom([]int{-1, 0, 1, 2}).Draw(rt, "ll")}
 		calls := genCalls(rt, 60)
 		for _, cl := range calls {
+			if rapid.IntRange(0, 9).Draw(rt, "disabledlvl") == 0 {
+				cl.Lvl = 7 // WithLevel(Disabled): never written, and rejected before the sampler is asked
+			}
 			c.Events = append(c.Events, LEvt{Lvl: cl.Lvl, Now: cl.Now, Global: rapid.SampledFrom([]int{-1, -1, -1, 0, 1, 3}).Draw(rt, "gl"), Disable: rapid.IntRange(0, 5).Draw(rt, "dis") == 0,
 				Via: rapid.SampledFrom([]string{"", "", "method", "method", "log", "write", "print", "printf", "println", "err"}).Draw(rt, "via")})
 		}
